@@ -24,20 +24,35 @@ EDIT_FUNCS = ["ldb_edit_export", "ldb_edit_import", "ldb_edit_add_file", "ldb_ed
               "ldb_slice_slurp", "ldb_rb_tree_put", "ldb_rb_iter_next", "ldb_vector_push"]
 
 
-def edit_rt(nf, nd, nc, ks, kl, cn, tier="quick"):
-    return Obl("b.edit-roundtrip-F%d-D%d-C%d-K%d.%d-N%d" % (nf, nd, nc, ks, kl, cn), "C17/edit.c",
+def edit_obl(mode, nf, nd, nc, ks, kl, cn, rot, tier="quick"):
+    """mode 0: export == reference encoder; 2: import of the reference bytes == original;
+    3: reference decoder self-check; 4: direct export -> import round trip (tiny sizes)."""
+    nm = {0: "export", 2: "import", 3: "refdec", 4: "roundtrip"}[mode]
+    nfields = 5 + nf + nd + nc
+    outcap = (2 + cn) + 4 * 11 + nc * (3 + kl) + nd * 12 + nf * (24 + ks + kl)
+    slab = max(outcap * 3 // 2 + 8, 32)
+    what = {0: "ldb_edit_export bytes == reference MANIFEST-record encoder (tags 1,2,9,3,4,5,6,7 in order); built edit holds the fields",
+            2: "ldb_edit_import of the standard record (== lcdb's export bytes by the export obligation) recovers every field",
+            3: "independent reference decoder accepts the exported/standard bytes and recovers every field",
+            4: "export -> reference decoder and export -> ldb_edit_import recover every field, in one query"}[mode]
+    return Obl("b.edit-%s-F%d-D%d-C%d-K%d.%d-N%d-R%d" % (nm, nf, nd, nc, ks, kl, cn, rot), "C17/edit.c",
                real=EDIT_REAL, kit=EDIT_KIT, include_real=["util/vector.c"],
-               defs={"VP_MODE": 0, "VP_NF": nf, "VP_ND": nd, "VP_NC": nc, "VP_KS": ks, "VP_KL": kl, "VP_CN": cn,
-                     "VP_SLAB": 96, "VP_OUTCAP": 64, "VP_VEC_CAP": 4},
-               unwind=12, unwindset={"vp_expect_bytes.0": 65},
-               timeout=600, tier=tier, functions=EDIT_FUNCS,
-               desc="export bytes == reference encoder; reference decoder and ldb_edit_import recover every field",
+               defs={"VP_MODE": mode, "VP_NF": nf, "VP_ND": nd, "VP_NC": nc, "VP_KS": ks, "VP_KL": kl, "VP_CN": cn,
+                     "VP_ROT": rot, "VP_SLAB": slab, "VP_OUTCAP": outcap, "VP_VEC_CAP": 4},
+               unwind=12,
+               unwindset={"vp_expect_bytes.0": outcap + 1, "ref_decode.0": nfields + 2,
+                          "ldb_edit_import.0": nfields + 2},
+               timeout=600, tier=tier, functions=EDIT_FUNCS, desc=what,
                bounds="%d new files, %d deleted files, %d compact pointers, keys %d/%d bytes, comparator name %d bytes; "
-                      "scalar fields symbolic present/absent, all 64-bit values, levels 0..6" % (nf, nd, nc, ks, kl, cn))
+                      "scalar fields symbolic present/absent, levels 0..6; every 64-bit number symbolic inside the varint "
+                      "length class 1+(3*field+%d)%%10 (all classes covered over R0..R9)" % (nf, nd, nc, ks, kl, cn, rot))
 
 
-OBLIGATIONS.append(edit_rt(0, 0, 0, 8, 8, 2))
-OBLIGATIONS.append(edit_rt(1, 1, 1, 8, 9, 3))
+for mode in (0, 2, 3):
+    OBLIGATIONS.append(edit_obl(mode, 0, 0, 0, 8, 8, 2, 0))
+    OBLIGATIONS.append(edit_obl(mode, 1, 1, 1, 8, 9, 3, 1))
+    OBLIGATIONS.append(edit_obl(mode, 2, 2, 1, 9, 10, 3, 2))
+OBLIGATIONS.append(edit_obl(4, 0, 1, 0, 8, 8, 1, 3))
 
 for x in (1, 2, 4):
     OBLIGATIONS.append(Obl("x1-%d" % x, "C17/tmp/x1.c", real=EDIT_REAL, kit=EDIT_KIT, include_real=["util/vector.c"], defs={"VP_X": x, "VP_SLAB": 96}, unwind=12, tier="thorough"))
